@@ -129,6 +129,7 @@ package core
 //@   ensures [C03] missing: F == RV_zero() ==> result != nil && nset == 0
 //@   ensures [C03] unsettable: F != RV_zero() && !rv_canset(F) ==> result != nil && nset == 0
 //@   ensures [C03] stored: result == nil ==> nset == 1 && F != RV_zero() && rv_canset(F)
+//@   ensures [C03] accepts: F != RV_zero() && rv_canset(F) && (rv_kind(F) == 24 || (rv_kind(F) == 1 && rv_kind(value) == 1) || (cmpK(rv_kind(F)) && ncls(rv_kind(value)) != 0 && rv_kind(value) != 12 && !(ncls(rv_kind(F)) == 2 && ncls(rv_kind(value)) == 1 && rv_int(value) < 0) && !(ncls(rv_kind(F)) == 2 && ncls(rv_kind(value)) == 3 && !fle(fz(), rv_f64(value))))) ==> result == nil
 //@   ensures [C03] refused: result != nil ==> nset == 0
 //@   nopanic own when (rv_kind(obj) == 25 || (rv_kind(obj) == 22 && rv_kind(rv_elem(obj)) == 25)) && (rv_kind(F) == 24 || (rv_kind(F) == 1 && rv_kind(value) == 1) || (cmpK(rv_kind(F)) && ncls(rv_kind(value)) != 0 && rv_kind(value) != 12 && !(ncls(rv_kind(F)) == 2 && ncls(rv_kind(value)) == 1 && rv_int(value) < 0) && !(ncls(rv_kind(F)) == 2 && ncls(rv_kind(value)) == 3 && !fle(fz(), rv_f64(value)))))
 //@   modifies nothing
